@@ -116,7 +116,11 @@ METRIC_PARAMS = {
 
 SF_NAMES = ["sf", "g", "a_p", "SF 1", "x"]
 CF_NAMES = ["cf", "ctl", "c_0", "k"]
-METRIC_NAMES = ["a", "b", "a_b", "m", "", 0]  # also falsy names: the empty string and the integer 0
+METRIC_NAMES = ["a", "b", "a_b", "m", "", 0, "g", "k"]  # falsy names ("" and 0), and names a feature may carry too (g, k)
+
+
+# y_true / y_pred containers: the vector kinds plus a (1, n) row vector and a nested one-row list (squeezed like columns)
+_Y_KINDS = st.sampled_from(gen.VECTOR_KINDS + ["ndarray_row", "nested_list"])
 
 
 @st.composite
@@ -179,13 +183,19 @@ def mf_case(draw, metric_keys=("lin", "max", "npint", "npfloat", "count", "selec
                                       "index": draw(gen.index_plan)},
         "y_true": y_true,
         "y_pred": y_pred,
-        "yt_kind": draw(gen.vector_kind),
-        "yp_kind": draw(gen.vector_kind),
+        "yt_kind": draw(_Y_KINDS),
+        "yp_kind": draw(_Y_KINDS),
         "yt_index": draw(gen.index_plan),
         "yp_index": draw(gen.index_plan),
         "mode": mode,
         "metrics": items,
     }
+    rowk = ("ndarray_row", "nested_list")
+    if (case["yt_kind"] in rowk) != (case["yp_kind"] in rowk):
+        # the lengths of y_true and y_pred are compared before they are flattened: a row vector is accepted only
+        # when both arrive as rows
+        other = "yp_kind" if case["yt_kind"] in rowk else "yt_kind"
+        case[other] = draw(st.sampled_from(rowk))
     if not allow_collisions and column_collision(case):
         # make names collision free by construction (no rejection): rename metrics to m0, m1, ...
         for i, it in enumerate(case["metrics"]):
